@@ -103,17 +103,20 @@ pub struct WModel {
     pub last_content: HashMap<String, String>,
 }
 
+/// (4 = a blank string: the console passes "" straight through when a user clears the field)
 pub fn typ_of(t: u8) -> Option<String> {
-    match t % 4 {
+    match t % 5 {
         0 => None,
+        4 => Some(String::new()),
         1 => Some("yaml".to_string()),
         2 => Some("json".to_string()),
         _ => Some("text".to_string()),
     }
 }
 pub fn desc_of(d: u8) -> Option<String> {
-    match d % 3 {
+    match d % 4 {
         0 => None,
+        3 => Some(String::new()),
         1 => Some("描述 one".to_string()),
         _ => Some("d2".to_string()),
     }
@@ -121,7 +124,8 @@ pub fn desc_of(d: u8) -> Option<String> {
 
 pub async fn cfg_get(n: &NodeH, key: ConfigKey) -> anyhow::Result<Option<(String, String, Option<String>, Option<String>)>> {
     match n.app.config_addr.send(ConfigCmd::GET(key)).await?? {
-        ConfigResult::Data { value, md5, config_type, desc, .. } => Ok(Some((value.as_ref().clone(), md5.as_ref().clone(), config_type.map(|s| s.as_ref().clone()), desc.map(|s| s.as_ref().clone())))),
+        // (a blank type / description is observed as an absent one: whether "" and None are told apart is left open)
+        ConfigResult::Data { value, md5, config_type, desc, .. } => Ok(Some((value.as_ref().clone(), md5.as_ref().clone(), config_type.map(|s| s.as_ref().clone()).filter(|s| !s.is_empty()), desc.map(|s| s.as_ref().clone()).filter(|s| !s.is_empty())))),
         _ => Ok(None),
     }
 }
@@ -214,11 +218,13 @@ pub async fn do_step(n: &NodeH, st: &WStep, m: &mut WModel, timeout_ms: u64) -> 
                 e.content = content.clone();
                 // the statement leaves open what a publish without type / description means; the code
                 // keeps the previous ones (declared as an assumption in evidence)
+                // (a blank one clears it)
                 if let Some(t) = typ_of(*typ) {
-                    e.typ = Some(t);
+                    // (a blank type is stored as the default type, ConfigType::new_by_value)
+                    e.typ = Some(if t.is_empty() { "text".to_string() } else { t });
                 }
                 if let Some(d) = desc_of(*desc) {
-                    e.desc = Some(d);
+                    e.desc = Some(d).filter(|s| !s.is_empty());
                 }
                 if changed {
                     e.history.push(content);
